@@ -18,6 +18,7 @@ import (
 	"math/big"
 	"math/rand"
 	"runtime"
+	"slices"
 	"sort"
 	"strconv"
 	"strings"
@@ -1533,7 +1534,7 @@ func c19Cov(k int, mc float64, reads [][]byte, counts []int, fail func(sig, form
 //        pointers by address), filled in by Exec ("?" in generated lines)
 //   result: len=<Len> m=<id:count,...> f=<id:count,... after FilterMinCount>
 
-func c19KM[T obifp.FPUint[T]](k uint, sparse bool, maxocc, mincount int, self bool, seqs [][]byte) (ord []int, length int, m, f map[int]int) {
+func c19KM[T obifp.FPUint[T]](k uint, sparse bool, maxocc, mincount int, self bool, seqs [][]byte, rev bool) (ord []int, length int, m, f map[int]int) {
 	all := make(obiseq.BioSequenceSlice, len(seqs))
 	id := map[*obiseq.BioSequence]int{}
 	// the sequences are allocated in an order derived from the case, so that the address of the query (the last one)
@@ -1552,6 +1553,9 @@ func c19KM[T obifp.FPUint[T]](k uint, sparse bool, maxocc, mincount int, self bo
 		hsh = hsh*1664525 + 1013904223
 		j := int(hsh>>8) % (i + 1)
 		perm[i], perm[j] = perm[j], perm[i]
+	}
+	if rev { // the opposite allocation order: the address ranks are (mostly) reversed
+		slices.Reverse(perm)
 	}
 	for _, i := range perm {
 		all[i] = obiseq.NewBioSequence(fmt.Sprintf("s%d", i), append([]byte{}, seqs[i]...), "")
@@ -1608,14 +1612,15 @@ func c19ShowMatch(m map[int]int) string {
 	return strings.Join(p, ",")
 }
 
-func c19RunKM(w int, k uint, sparse bool, maxocc, mincount int, self bool, seqs [][]byte) ([]int, int, map[int]int, map[int]int) {
+func c19RunKM(w int, k uint, sparse bool, maxocc, mincount int, self bool, seqs [][]byte, rev ...bool) ([]int, int, map[int]int, map[int]int) {
+	r := len(rev) > 0 && rev[0]
 	switch w {
 	case 64:
-		return c19KM[obifp.Uint64](k, sparse, maxocc, mincount, self, seqs)
+		return c19KM[obifp.Uint64](k, sparse, maxocc, mincount, self, seqs, r)
 	case 128:
-		return c19KM[obifp.Uint128](k, sparse, maxocc, mincount, self, seqs)
+		return c19KM[obifp.Uint128](k, sparse, maxocc, mincount, self, seqs, r)
 	}
-	return c19KM[obifp.Uint256](k, sparse, maxocc, mincount, self, seqs)
+	return c19KM[obifp.Uint256](k, sparse, maxocc, mincount, self, seqs, r)
 }
 
 func c19ExecKM(f []string, fail func(sig, format string, a ...any)) string {
@@ -1664,10 +1669,32 @@ func c19ExecKM(f []string, fail func(sig, format string, a ...any)) string {
 	caseOverride = strings.Join(f[:7], " ") + " " + strings.Join(os, ",") + " " + strings.Join(f[8:], " ")
 	if self {
 		stat("km:self")
-		if _, ok := m[len(seqs)-1]; ok {
+		if n, ok := m[len(seqs)-1]; ok {
 			stat("km:self-query-reported")
+			// Query skips the query sequence (`prevseq != sequence`) everywhere but in the statement that follows the
+			// loop: the sequence with the largest address is recorded even when it is the query itself
+			fail("km.self-reported", "Query(s) on an index holding s reports s itself (count %d): it does so only when s has the largest address (rank %d of %d) of the matched sequences", n, ord[len(seqs)-1], len(seqs))
 		} else {
 			stat("km:self-query-not-reported")
+		}
+	}
+	// ---- oracle: the answer of Query is a function of the sequences, not of where they are allocated
+	{
+		var ord2 []int
+		var m2 map[int]int
+		if !c19Try(func() { ord2, _, m2, _ = c19RunKM(w, uint(k), sparse, maxocc, mincount, self, seqs, true) }) {
+			same := true
+			for i := range ord {
+				if ord[i] != ord2[i] {
+					same = false
+				}
+			}
+			if !same {
+				stat("km:address-order-changed")
+			}
+			if c19ShowMatch(m2) != c19ShowMatch(m) {
+				fail("km.address-dependent", "Query = %s with address ranks %v, %s with address ranks %v", c19ShowMatch(m), ord, c19ShowMatch(m2), ord2)
+			}
 		}
 	}
 	// ---- oracle (naive canonical k-mers on strings): without occurrence limit, a reference other than the query is
